@@ -230,6 +230,7 @@ pub fn witness_kf() -> Case {
         lastref: 0,
         offset: 0,
         peg: 0,
+        own_price: None,
     };
     Case {
         prefix: History {
